@@ -4,7 +4,7 @@
    "stream made of LF/CRLF-terminated lines without CR or LF inside a line" and "a way of splitting the stream into
    successive non-empty receive chunks".  No bound on the number or length of lines or chunks. *)
 From Coq Require Import List ZArith Bool.
-Require Import Prim.Splitlines Model.Socket Spec.SocketSpec Proofs.SocketProofs.
+Require Import Prim.Dict Prim.Splitlines Gen.GenConst Model.Socket Spec.SocketSpec Proofs.SocketProofs.
 Import ListNotations.
 Open Scope Z_scope.
 
@@ -61,3 +61,13 @@ Proof.
   - split; [reflexivity|]. apply chunks_okb_spec. reflexivity.
   - reflexivity.
 Qed.
+
+(* The literals of Stream._iter_messages / should_parse written by hand in Model/Socket.v are the ones the translator
+   reads from pyais/stream.py on every run (Gen/GenConst.v): a changed literal in the source breaks this obligation. *)
+Theorem C06_literals_tied : forall line,
+  sock_line_filter line =
+  negb (Z.of_nat (length line) <=? STREAM_SKIP_LEN) &&
+  match line with [] => false | c :: _ => zmem c SHOULD_PARSE_FIRST end.
+Proof. intros [|c r]; [reflexivity|]. unfold sock_line_filter, sock_should_parse, zmem, SHOULD_PARSE_FIRST, STREAM_SKIP_LEN.
+       cbn [existsb]. rewrite Bool.orb_false_r, Bool.orb_assoc. reflexivity. Qed.
+Print Assumptions C06_literals_tied.
